@@ -252,16 +252,16 @@ def main():
     ck = Check("C14")
     if ck.replay:
         body = json.load(open(os.path.join(VERIF, ck.replay) if not os.path.isabs(ck.replay) else ck.replay))
-        run_case(ck, body["case"])
+        ck.guard(run_case, ck, body["case"])
         ck.finish(rule="replay of one recorded operation sequence")
     ck.lean_obligations("CvProps.C14", THEOREMS)
     for case in json.load(open(os.path.join(VERIF, "harness", "corpus", "C14.json"))):
-        run_case(ck, case)
+        ck.guard(run_case, ck, case)
         ck.count("corpus")
     for _ in range(70 if not ck.thorough else 2000):
         if ck.enough():
             break
-        run_case(ck, gen_case(ck))
+        ck.guard(run_case, ck, gen_case(ck))
     ck.assumptions = [
         "randomised operations are compared exactly under an identical torch seed set immediately before the operation on both objects (graph construction reseeds the global generator)",
         "for unseeded graphs hash values legitimately differ between objects; outputs are compared without hash values",
@@ -270,4 +270,6 @@ def main():
 
 
 if __name__ == "__main__":
-    main()
+    from cv.core import run_main
+
+    run_main(main)
